@@ -439,4 +439,71 @@ theorem errorLocationV_eq (split : Bool) (toks : List Tok) (bad : Option Tok)
   | none => rfl
   | some b => simp only [errLenV_eq split b (hb b rfl)]
 
+/-! ### the part-by-part variant in general: it is the one-piece loop over "virtual tokens"
+(one per `'\n'`-separated part of a value), so the caret theorem applies with NO hypothesis about
+newlines inside values -/
+
+/-- the parts of a value as tokens of their own: part `n` on line `lineno + n`, at the absolute
+offset where it starts -/
+def partToksAux (ty : Nat) : Nat → Nat → List (List Char) → List Tok
+  | _, _, [] => []
+  | ln, ix, p :: r => ⟨ty, p, ln, ix⟩ :: partToksAux ty (ln + 1) (ix + p.length + 1) r
+
+def partToks (t : Tok) : List Tok := partToksAux t.type t.lineno t.index (splitLines t.value)
+
+/-- the virtual token list -/
+def virt (toks : List Tok) : List Tok := toks.flatMap partToks
+
+/-- what the carets are measured on: the first part of the bad token's value -/
+def headPart (b : Tok) : Tok := ⟨b.type, (splitLines b.value).headD [], b.lineno, b.index⟩
+
+theorem addParts_eq (ty : Nat) : ∀ (parts : List (List Char)) (d : Dict) (ln ix : Nat),
+    addParts d ln ix parts = (partToksAux ty ln ix parts).foldl addTok d := by
+  intro parts
+  induction parts with
+  | nil => intro d ln ix; rfl
+  | cons p r ih => intro d ln ix; simp only [addParts, partToksAux, List.foldl_cons]; rw [ih]; rfl
+
+theorem foldl_addTokV_true : ∀ (toks : List Tok) (d : Dict),
+    toks.foldl (addTokV true) d = (virt toks).foldl addTok d := by
+  intro toks
+  induction toks with
+  | nil => intro d; rfl
+  | cons t ts ih =>
+    intro d
+    simp only [List.foldl_cons, virt, List.flatMap_cons, List.foldl_append]
+    rw [ih]
+    simp only [addTokV, if_true, virt]
+    rw [addParts_eq t.type]
+    rfl
+
+theorem splitLines_ne_nil : ∀ v : List Char, splitLines v ≠ [] := by
+  intro v
+  cases v with
+  | nil => simp [splitLines]
+  | cons c r =>
+    unfold splitLines
+    cases splitLines r with
+    | nil => simp
+    | cons l ls => by_cases h : c = '\n' <;> simp [h]
+
+theorem headPart_mem {toks : List Tok} {b : Tok} (hb : b ∈ toks) : headPart b ∈ virt toks := by
+  unfold virt
+  rw [List.mem_flatMap]
+  refine ⟨b, hb, ?_⟩
+  unfold partToks headPart
+  cases h : splitLines b.value with
+  | nil => exact absurd h (splitLines_ne_nil _)
+  | cons l ls => simp [partToksAux]
+
+/-- the part-by-part `error_location` IS the one-piece `error_location` of the virtual tokens -/
+theorem errorLocationV_true_eq (toks : List Tok) (bad : Option Tok) :
+    errorLocationV true toks bad = errorLocation (virt toks) (bad.map headPart) := by
+  unfold errorLocationV errorLocation
+  have hd : buildV true toks = build (virt toks) := foldl_addTokV_true toks []
+  rw [hd]
+  cases bad with
+  | none => rfl
+  | some b => rfl
+
 end MindsVerif.Err
